@@ -48,7 +48,7 @@ def getattr_value(E, path, o, name, frame):
         if tag == "StrV":
             return getattr_value(E, path, E.from_pv(E.U.strv(E.PV.s(o.term))), name, frame)
         if tag == "ListV":
-            if name in LIST_METHODS:
+            if hasattr(list, name):
                 lo = ListObj(E.PV.items(o.term), fresh=False)
                 lo.sym_origin = o
                 return Builtin("list." + name, lo)
@@ -65,16 +65,20 @@ def getattr_value(E, path, o, name, frame):
             return MISSING
         raise Unsupported(f"getattr on {tag}")
     if isinstance(o, (str, SStr)):
-        if name in STR_METHODS:
+        if hasattr(str, name):
             return Builtin("str." + name, o)
         return MISSING
     if isinstance(o, ListObj):
-        if name in LIST_METHODS:
+        if hasattr(list, name):
             return Builtin("list." + name, o)
         return MISSING
     if isinstance(o, DictObj):
-        if name in DICT_METHODS:
+        if hasattr(dict, name):
             return Builtin("dict." + name, o)
+        return MISSING
+    if isinstance(o, tuple):
+        if hasattr(tuple, name):
+            return Builtin("tuple." + name, o)
         return MISSING
     if isinstance(o, ClassRef):
         if name == "__name__":
@@ -102,7 +106,7 @@ def getattr_value(E, path, o, name, frame):
         if name == "__name__":
             return o.fact["name"]
         return MISSING
-    if o is None or isinstance(o, (bool, int, float, tuple, SInt, SBool, SymTuple, BoundMethod, Builtin)):
+    if o is None or isinstance(o, (bool, int, float, SInt, SBool, SymTuple, BoundMethod, Builtin)):
         return MISSING
     raise Unsupported(f"getattr on {type(o).__name__}")
 
@@ -138,6 +142,18 @@ def call(E, path, fv, args, kwargs, frame):
     name = fv.name
     h = _TABLE.get(name)
     if h is None:
+        # concrete receiver and arguments of an immutable builtin type: CPython itself is the model
+        if name.split(".")[0] in ("str", "tuple") and isinstance(fv.self_val, (str, tuple)) \
+                and all(isinstance(a, (str, int, bool, type(None))) for a in args) and not kwargs \
+                and (name.split(".")[0] == "str" or all(isinstance(x, (str, int, bool, type(None))) for x in fv.self_val)):
+            try:
+                r = getattr(fv.self_val, name.split(".", 1)[1])(*args)
+            except Exception as ex:
+                E.throw(path, type(ex).__name__ if type(ex).__name__ in BUILTIN_EXC else "Exception", str(ex))
+            if isinstance(r, list):
+                return ListObj(r)
+            if isinstance(r, (str, int, bool, tuple, type(None))):
+                return r
         raise Unsupported(f"builtin {name}")
     return h(E, path, fv, args, kwargs, frame)
 
@@ -610,6 +626,21 @@ def _list_extend(E, path, fv, args, kwargs, frame):
     return None
 
 
+def _list_insert(E, path, fv, args, kwargs, frame):
+    lst = fv.self_val
+    idx, x = args
+    E.own_check(path, lst, "insert")
+    if not isinstance(idx, int):
+        raise Unsupported("list.insert with symbolic index")
+    if lst.is_concrete():
+        lst.content.insert(idx, x)
+        return None
+    if idx == 0:
+        lst.content = z3.Concat(z3.Unit(E.to_pv(x)), lst.content)
+        return None
+    raise Unsupported("list.insert into symbolic list at non-zero index")
+
+
 def _list_pop(E, path, fv, args, kwargs, frame):
     lst = fv.self_val
     E.own_check(path, lst, "pop")
@@ -683,6 +714,6 @@ _TABLE = {
     "str.replace": _str_replace, "str.upper": _str_case("upper"), "str.lower": _str_case("lower"),
     "str.split": _str_split, "str.join": _str_join, "str.startswith": _str_startswith,
     "str.endswith": _str_endswith,
-    "list.append": _list_append, "list.extend": _list_extend, "list.pop": _list_pop,
+    "list.append": _list_append, "list.insert": _list_insert, "list.extend": _list_extend, "list.pop": _list_pop,
     "dict.items": _dict_items, "dict.get": _dict_get, "dict.keys": _dict_keys, "dict.values": _dict_values,
 }
